@@ -33,7 +33,7 @@ RULE = ('one run = one seeded FileStorage history (commits, aborts at every '
         'the deep subset also the image whose index file (renamed into '
         'place without an fsync of its contents) is empty or cut short')
 BUDGET = {'quick': {'runs': 3000, 'wall': 300, 'chunk': 10},
-          'thorough': {'runs': 30000, 'wall': 3000, 'chunk': 10}}
+          'thorough': {'runs': 30000, 'wall': 2400, 'chunk': 10}}
 ASSUMPTIONS = [
     'crash model of the property: a prefix of the issued low-level '
     'operations with at most one torn (byte-prefix) write; no reordering of '
